@@ -317,15 +317,23 @@ def run_variant(case, rng):
         # user-defined columns, as documented in the module docstring of iodata.formats.xyz
         from iodata.formats.xyz import DEFAULT_ATOM_COLUMNS
 
+        # several keyed columns may store into the SAME dictionary attribute (two charge models, two extra fields)
         cols = [*DEFAULT_ATOM_COLUMNS,
                 ("atcharges", "mulliken", (), float, float, "{:10.5f}".format),
-                ("atgradient", None, (3,), float, (lambda word: -float(word)), (lambda value: f"{-value:15.10f}"))]
+                ("atgradient", None, (3,), float, (lambda word: -float(word)), (lambda value: f"{-value:15.10f}")),
+                ("atcharges", "esp", (), float, float, "{:10.5f}".format),
+                ("extra", "spin_a", (), float, float, "{:8.3f}".format),
+                ("extra", "spin_b", (), float, float, "{:8.3f}".format)]
         natom = int(rng.integers(1, 12))
         d = IOData(atnums=rng.integers(1, 30, size=natom), atcoords=np.round(rng.normal(size=(natom, 3)), 6) * A,
-                   atcharges={"mulliken": np.round(rng.normal(size=natom), 5)}, atgradient=np.round(rng.normal(size=(natom, 3)), 10),
-                   title="custom columns")
+                   atcharges={"mulliken": np.round(rng.normal(size=natom), 5), "esp": np.round(rng.normal(size=natom), 5)},
+                   atgradient=np.round(rng.normal(size=(natom, 3)), 10), title="custom columns",
+                   extra={"spin_a": np.round(rng.normal(size=natom), 3), "spin_b": np.round(rng.normal(size=natom), 3)})
         exp = stored("xyz", d)
         exp[("atcharges", "mulliken")] = approx(d.atcharges["mulliken"], 0.5e-5 * 1.01)
+        exp[("atcharges", "esp")] = approx(d.atcharges["esp"], 0.5e-5 * 1.01)
+        exp[("extra", "spin_a")] = approx(d.extra["spin_a"], 0.5e-3 * 1.01)
+        exp[("extra", "spin_b")] = approx(d.extra["spin_b"], 0.5e-3 * 1.01)
         exp[("atgradient",)] = approx(d.atgradient, 0.5e-10 * 1.01)
         roundtrip(d, "xyz", "xyz:atom-columns", viols, counters, exp, kwargs={"atom_columns": cols})
     return result(viols, [f"variant:{variant}"], counters, feats)
